@@ -1235,3 +1235,76 @@ func c16r8(rc *core.RC) {
 		rc.Unknown("encoder/digit-writers", token.NoPos, "found %d of AppendInt/AppendUint", n)
 	}
 }
+
+// ---- C16.R9 each code node emits the operations of its own family ----
+
+// The compiler's tree has one node type per kind of value (IntCode, UintCode, FloatCode, StringCode, …) and the
+// operation set has one family per kind (OpInt, OpIntPtr, OpIntString; OpUint, OpUintPtr, …). A node's ToOpcode picks
+// among the members of its family (plain, behind a pointer, as a string). An operation of the neighbouring family
+// compiles and runs: OpIntPtr for an unsigned number prints the value with its top bit as a sign (uint8(200) as -56).
+// Obligation: every operation constant named in (*XCode).ToOpcode begins with OpX followed by an upper-case letter, a
+// digit or nothing.
+func c16r9(rc *core.RC) {
+	p := rc.P
+	pk := p.Pkg("encoder")
+	if pk == nil {
+		rc.Unknown("encoder", token.NoPos, "package not found")
+		return
+	}
+	info := pk.TypesInfo
+	n := 0
+	for _, fd := range p.Funcs("encoder") {
+		if fd.Body == nil || fd.Recv == nil || fd.Name.Name != "ToOpcode" {
+			continue
+		}
+		fn, _ := info.Defs[fd.Name].(*types.Func)
+		if fn == nil {
+			continue
+		}
+		rt := fn.Type().(*types.Signature).Recv().Type()
+		if pt, ok := rt.(*types.Pointer); ok {
+			rt = pt.Elem()
+		}
+		named, ok := rt.(*types.Named)
+		if !ok || !strings.HasSuffix(named.Obj().Name(), "Code") {
+			continue
+		}
+		family := "Op" + strings.TrimSuffix(named.Obj().Name(), "Code")
+		switch family {
+		case "OpInt", "OpUint", "OpFloat", "OpString", "OpBool", "OpBytes", "OpSlice", "OpArray", "OpMap", "OpInterface", "OpMarshalJSON", "OpMarshalText":
+		default:
+			continue // struct, field and pointer nodes combine the operations of their children
+		}
+		name := p.FuncName(fd)
+		rc.Touch(name)
+		k := 0
+		ast.Inspect(fd.Body, func(m ast.Node) bool {
+			id, ok := m.(*ast.Ident)
+			if !ok || !strings.HasPrefix(id.Name, "Op") {
+				return true
+			}
+			c, isConst := core.ObjOf(info, id).(*types.Const)
+			if !isConst || !strings.HasSuffix(c.Type().String(), "encoder.OpType") {
+				return true
+			}
+			k++
+			n++
+			own := false
+			fams := []string{family}
+			if family == "OpString" {
+				fams = append(fams, "OpNumber") // json.Number is a string kind: StringCode emits its operations too
+			}
+			for _, fam := range fams {
+				rest := strings.TrimPrefix(id.Name, fam)
+				if strings.HasPrefix(id.Name, fam) && (rest == "" || (rest[0] >= 'A' && rest[0] <= 'Z') || (rest[0] >= '0' && rest[0] <= '9')) {
+					own = true
+				}
+			}
+			rc.Check(own, fmt.Sprintf("%s/operation#%d %s of-the-node's-family", name, k, id.Name), id.Pos(), "%s names the operation %s: a node emits operations of its own family (%s…); the operation of another family reads the value as another kind (an unsigned number through OpIntPtr is printed with its top bit as a sign)", name, id.Name, family)
+			return true
+		})
+	}
+	if n < 20 {
+		rc.Unknown("encoder/node-operations", token.NoPos, "found %d operation constants in the ToOpcode methods of the scalar and container nodes (confirmed: 24)", n)
+	}
+}
